@@ -512,5 +512,11 @@ class World:
             h.update(repr((rec[2],) + tuple(rec[3:7])).encode())
         return h.hexdigest()[:16]
 
+    def rank_order_digest(self):
+        """Digest of the interleaving pattern alone: the sequence of rank ids in the order in
+        which the scheduler processed their simulator calls (no operation names, no contexts)."""
+        h = hashlib.sha256(bytes(bytearray(min(rec[2], 255) for rec in self.log)))
+        return h.hexdigest()[:16]
+
     def sim_time(self):
         return max(self.T) if self.T else 0.0
